@@ -125,41 +125,48 @@ def script_of(hist, rot=0):
 
 def run_script(script, pool='fake', workers=None, gated=True, complete=False, free=False):
     """Run a script on the real Worker; -> (lines, notes)."""
-    from .x03_world import World
+    from .x03_world import NotDriven, World
     w = World(pool=pool, workers=workers, gated=gated, complete=complete)
     notes = []
     try:
-        for st in script:
-            op = st[0]
-            if op == 'F':
-                w.fire(st[1], st[2], st[3])
-            elif op == 'T':
-                w.tick()
-            elif op == 'X':
-                if not w.exec(st[1]):
-                    notes.append('exec-not-applicable')
-            elif op == 'P':
-                if not w.publish(st[1]):
-                    notes.append('publish-not-applicable')
-            elif op == 'S':
-                w.stop()
-            elif op == 'U':
-                w.unregister()
-            elif op == 'O':
-                w.unregister_other()
-            elif op == 'W':
-                # free-running real pool: tick (with tiny sleeps) until every task fired so far has been announced
-                w.run_until_announced()
-            elif op == 'Q':
-                break
-        w.script_end = len(w.log)       # what follows is the driver's quiescence
-        w.quiesce()
-        if w.exceptions and not any(ln['k'] == 'failure' for ln in w.log):
-            notes.append('exception-event-without-failure')
-        run_script.last_script_end = w.script_end
-        return list(w.log), notes
+        return _drive(w, script, notes)
+    except NotDriven as e:
+        raise NotDriven('%s [script %s on pool %s, workers %s, gated %s; last lines %s]'
+                        % (e, script, pool, workers, gated, [(ln['k'], ln['t'], ln['v']) for ln in w.log[-8:]]))
     finally:
         w.teardown()
+
+
+def _drive(w, script, notes):
+    for st in script:
+        op = st[0]
+        if op == 'F':
+            w.fire(st[1], st[2], st[3])
+        elif op == 'T':
+            w.tick()
+        elif op == 'X':
+            if not w.exec(st[1]):
+                notes.append('exec-not-applicable')
+        elif op == 'P':
+            if not w.publish(st[1]):
+                notes.append('publish-not-applicable')
+        elif op == 'S':
+            w.stop()
+        elif op == 'U':
+            w.unregister()
+        elif op == 'O':
+            w.unregister_other()
+        elif op == 'W':
+            # free-running real pool: tick (with tiny sleeps) until every task fired so far has been announced
+            w.run_until_announced()
+        elif op == 'Q':
+            break
+    w.script_end = len(w.log)       # what follows is the driver's quiescence
+    w.quiesce()
+    if w.exceptions and not any(ln['k'] == 'failure' for ln in w.log):
+        notes.append('exception-event-without-failure')
+    run_script.last_script_end = w.script_end
+    return list(w.log), notes
 
 
 def norm(lines, sub=None):
@@ -471,7 +478,7 @@ def _run(tier):
     compare = []         # (trace index, variant, hist, substituted tasks, script end, from TLC?)
 
     # 0. process pools first (the process is still single-threaded: fork is safe)
-    n_proc = 6 if quick else 60
+    n_proc = 3 if quick else 40
     for i in range(n_proc):
         nt = rnd.randint(1, 6)
         script = free_script(rnd, nt)
@@ -557,7 +564,7 @@ def _run(tier):
     chosen = ended + cut
 
     n_real_replays = 0
-    real_budget = 60 if quick else 600
+    real_budget = 40 if quick else 600
     t_rep = time.time()
     for idx, key in enumerate(chosen):
         variant, h = key
@@ -594,8 +601,8 @@ def _run(tier):
     batch = [lines for meta, lines in traces] + [m[0] for _, m in muts] + [orig for orig, _ in muts]
     t4 = time.time()
     with ThreadPoolExecutor(max_workers=2) as ex:
-        f_val = ex.submit(tlc.validate_traces, SPEC, 'WorkersTrace', 'WorkersTrace.cfg', batch, shards=4 if quick else 12, jvm_opts=JVM)
-        f_conf = ex.submit(model_lines, [(c[1], c[2]) for c in compare], 3 if quick else 10)
+        f_val = ex.submit(tlc.validate_traces, SPEC, 'WorkersTrace', 'WorkersTrace.cfg', batch, shards=8 if quick else 12, jvm_opts=JVM)
+        f_conf = ex.submit(model_lines, [(c[1], c[2]) for c in compare], 4 if quick else 10)
         verdicts, stats = f_val.result()
         mlines, conf_states = f_conf.result()
     t_val = time.time() - t4
